@@ -34,7 +34,7 @@ FAMN = {"fEdge": 0, "fPi": 1, "fW": 2, "fSlack": 3, "fGamma": 4, "fErr": 5, "fR"
 N_OUT = {"encode_paths": 7, "encode_kfd": 2, "encode_kpc": 0, "encode_kfdw": 0, "encode_klae": 4, "encode_klae_given": 2, "encode_klae_obj": 0,
          "encode_kmpe": 6, "encode_kmpe_given": 4, "encode_kmpe_obj": 0}            # number of assigned attributes after (outcome, cols, rows)
 STATEMENT = {
-    "encode_paths": "_encode_paths adds exactly the edge / constraint variables and the rows 10a (one per layer), 10c (per layer and inner node), 7a (per layer and constraint) and 7b (per constraint) of the documented formulation",
+    "encode_paths": "_encode_paths adds exactly the edge / constraint variables and the rows 10a (one per layer), 10c (per layer and inner node), 7a (per layer and constraint) and 7b (per constraint) of the documented formulation (with encode_edge_position also the position / path-length variables and their defining rows)",
     "encode_kfd": "_encode_flow_decomposition adds exactly the pi / w variables, for every non-ignored edge the four product rows per layer and the row sum_i pi(u,v,i) == flow(u,v)",
     "encode_kpc": "_encode_path_cover adds exactly one row sum_i x(u,v,i) >= 1 per non-ignored edge",
     "encode_kfdw": "_encode_flow_decomposition_with_given_weights adds exactly, per non-ignored edge, the row sum_i w_i x(u,v,i) == flow(u,v), the row 'at most original_k source edges used', and minimises the number of source edges used",
@@ -208,7 +208,15 @@ def spec(name, m, ids):
                 cols[(6, i, j)] = (F(0), F(1), True)
                 rows.append(nrow([(E(e[0], e[1], i), ln(e)) for e in c] + [((6, i, j), -total * F(cov))], ">=", 0))
             rows.append(nrow([((6, i, j), 1) for i in range(k)], ">=", 1))
-        if m.encode_edge_position: return None          # not part of the statement (the hand-written model leaves it out too)
+        if m.encode_edge_position:      # position(u,v,i) == sum of len(e) x(e,i) over the edges e whose head reaches u; path_length(i) == sum over all edges
+            ln2 = lambda a, b: F(st[a][b].get(m.length_attr, 1))
+            ml = F(st.number_of_nodes()) if m.length_attr is None else sum((ln2(a, b) for a, b in st.edges()), F(0))
+            for i in range(k):
+                for u, v in st.edges():
+                    cols[(10, ids[u], ids[v], i)] = (F(0), ml, True)
+                    rows.append(nrow([((10, ids[u], ids[v], i), 1)] + [(E(a, b, i), -ln2(a, b)) for (a, b) in st.reachable_edges_rev_from[u]], "==", 0))
+                cols[(11, i)] = (F(0), ml, True)
+                rows.append(nrow([((11, i), 1)] + [(E(a, b, i), -ln2(a, b)) for (a, b) in st.edges()], "==", 0))
     elif name == "encode_kfd":
         isint = m.weight_type == int; W = F(m.w_max)
         for i in range(k):
@@ -435,7 +443,7 @@ def run_generated_klae(ctx):
 
 def run_generated_kmpe(ctx):
     """end of engines/c08.py::run"""
-    run(ctx, [(["encode_kmpe", "encode_kmpe_obj"], kmpe_models, "genenc-kmpe", 30), (["encode_kmpe_given"], kmpe_given_models, "genenc-kmpe-given", 14)], family="kmpe")
+    run(ctx, [(["encode_paths", "encode_kmpe", "encode_kmpe_obj"], kmpe_models, "genenc-kmpe", 30), (["encode_kmpe_given"], kmpe_given_models, "genenc-kmpe-given", 14)], family="kmpe")
 
 
 def run(ctx, groups, family="base"):
